@@ -440,6 +440,7 @@ func legitBig(b []byte) bool {
 // C10: no input can crash or exhaust the process; bad files yield errors.
 func C10(r *chk.Run) {
 	r.Rule("bounded-exhaustive structured mutation of valid seed files in isolated workers (ulimit -v 8 GiB, 64 MiB stack, 30 s per call, per-call allocation accounting): POSITION-EXHAUSTIVE depth 1 - for every byte offset of every seed and every width in {1,2,4,8} the bytes are overwritten with each hostile value of that width {0,1,...,2^15,2^16-1,2^31,2^32-1,2^40,2^63-1,2^63,2^64-9,2^64-1} and with v-1, v+1 (every length/offset/size/count/time/id/opcode field starts at some offset); STRUCTURAL - every record duplicated / removed / swapped with its neighbour, values just below 2^31 on one length field per record kind, compression names of every length 0..40; NESTED - every top-level record (the chunk itself included) copied to the front/middle/end of every chunk's records with sizes fixed up and recompressed, chunk records replaced by the whole file / by nothing; SPLICED - for every ordered pair of records a chimera body (half of one, half of the other) and the byte stream cut from the middle of one into the middle of the other; thorough: DEPTH 2 - every pair of length/size/offset/count fields x reduced hostile values {0, 2^31, 2^63, max, v-1, v+1}; every mutant goes through 12 decode entry points (lexer under 6 option sets incl. every Parse*, Info+ChannelCounts, 4 iterator modes, random access); outcome must be ok or error - never panic, process death, stall or allocation beyond the ceilings; distinct = entry-point calls")
+	r.Assume("mutants that legitimately allocate up to the documented 2 GiB ceiling (seconds of page clearing each) are run by the near-2GiB family and, in thorough, by the positional family of the first seed; elsewhere they are counted as deferred; every family gets a fair share of the time budget and reports exhaustive=false when it did not finish")
 	r.Assume("seeds are written without CRCs so that no path is masked by a checksum failure; truncations are C09's; depth-2 mutations are restricted to pairs of the specification's size/offset/count fields and are thorough-only")
 	seeds := c10Seeds(r.Thorough())
 	thorough := r.Thorough()
@@ -504,8 +505,24 @@ func C10(r *chk.Run) {
 		}
 		os.Exit(0)
 	}
+	// fair shares: a family may use the time left divided by the work left (in mutants), but at least
+	// its equal share, so that a slow family cannot starve the ones after it; what a family does not
+	// use goes to the rest
+	remainingWork := 0
 	for _, f := range fams {
+		remainingWork += f.n
+	}
+	for fi, f := range fams {
 		f := f
+		famDeadline := r.Deadline
+		if left := time.Until(r.Deadline); left > 0 && remainingWork > 0 {
+			share := time.Duration(float64(left) * float64(f.n) / float64(remainingWork))
+			if eq := left / time.Duration(len(fams)-fi); share < eq {
+				share = eq
+			}
+			famDeadline = time.Now().Add(share)
+		}
+		remainingWork -= f.n
 		if !r.TimeLeft() && !iso.IsWorker() {
 			r.Count(f.name, 0, 0, 0, false, map[string]any{"skipped": "internal deadline"})
 			continue
@@ -516,7 +533,7 @@ func C10(r *chk.Run) {
 			if b == nil {
 				return nil
 			}
-			if !thorough && !strings.HasPrefix(f.name, "near-2GiB") && legitBig(b) {
+			if !strings.HasPrefix(f.name, "near-2GiB") && !(thorough && f.name == "positional/"+seeds[0].name) && legitBig(b) {
 				return []iso.Outcome{{Class: "deferred-legit-2GiB-allocation"}}
 			}
 			e := i % c10Entries
@@ -556,7 +573,7 @@ func C10(r *chk.Run) {
 			batch, nw = 1, 2
 		}
 		t0 := time.Now()
-		res := iso.Run("C10/"+f.name, total, batch, nw, 30*time.Second, r.Deadline, fn)
+		res := iso.Run("C10/"+f.name, total, batch, nw, 30*time.Second, famDeadline, fn)
 		wall := time.Since(t0).Seconds()
 		r.Count(f.name, res.Calls, res.Inputs, res.Calls, res.Exhaustive, map[string]any{"mutants": f.n, "entry_point_calls": res.Calls, "outcome_classes": res.ByClass, "wall_s": wall, "worker_restarts": res.Restarts, "workers_recycled_after_big_allocation": res.Recycled, "not_reproducible_alone": len(res.NotRepro)})
 		reportBad(r, "C10", f.name, res, func(i int) any {
